@@ -2080,27 +2080,31 @@ fn main() {
     });
     // three items, reduced menus (thorough only)
     if !quick {
-        first_reduced.par_iter().for_each(|a| {
-            let pos = 12 + a.bytes.len();
-            for b in items(pos, &a.landmarks, false, quick) {
-                if b.section < a.section {
+        let mut pairs: Vec<(usize, GItem)> = Vec::new();
+        for (ai, a) in first_reduced.iter().enumerate() {
+            for b in items(12 + a.bytes.len(), &a.landmarks, false, quick) {
+                if b.section >= a.section {
+                    pairs.push((ai, b));
+                }
+            }
+        }
+        stats.count_n("gen.three_items_prefix_pairs", pairs.len() as u64);
+        pairs.par_iter().for_each(|(ai, b)| {
+            let a = &first_reduced[*ai];
+            let pos2 = 12 + a.bytes.len() + b.bytes.len();
+            let mut lm = a.landmarks.clone();
+            lm.extend(b.landmarks.iter().cloned());
+            lm.truncate(4);
+            for c in items(pos2, &lm, false, quick) {
+                if c.section < b.section {
                     continue;
                 }
-                let pos2 = pos + b.bytes.len();
-                let mut lm = a.landmarks.clone();
-                lm.extend(b.landmarks.iter().cloned());
-                lm.truncate(4);
-                for c in items(pos2, &lm, false, quick) {
-                    if c.section < b.section {
-                        continue;
-                    }
-                    let mut actual = [0u16; 4];
-                    actual[a.section] += 1;
-                    actual[b.section] += 1;
-                    actual[c.section] += 1;
-                    let m = assemble(0xABCD, &[a, &b, &c], 0x8400, actual);
-                    pc(&m, &[a, &b, &c], "three-items-reduced");
-                }
+                let mut actual = [0u16; 4];
+                actual[a.section] += 1;
+                actual[b.section] += 1;
+                actual[c.section] += 1;
+                let m = assemble(0xABCD, &[a, b, &c], 0x8400, actual);
+                pc(&m, &[a, b, &c], "three-items-reduced");
             }
         });
     }
